@@ -7,6 +7,7 @@
 # SPDX-License-Identifier: LGPL-2.1-or-later
 
 from pyscsi.pyscsi.scsi_exception import SCSIDeviceCommandExceptionMeta as ExMETA
+from pyscsi.pyscsi.scsi_opcode import OpCode
 from pyscsi.utils.converter import CheckDict, decode_bits, encode_dict
 
 
@@ -33,10 +34,9 @@ class SCSICommand(metaclass=ExMETA):
         :param dataout_alloclen: integer representing the size of the data_out buffer
         :param datain_alloclen: integer representing the size of the data_in buffer
         """
-        # we need the _cdb_bits and _cdb values in staticmethods so we have to set it
-        # on the class and not on the instance of the class. that might be wrong ...
-        SCSICommand._cdb_bits = self._cdb_bits
-        SCSICommand._cdb = SCSICommand.init_cdb(opcode)
+        # every command keeps its own cdb; the layout (_cdb_bits) is looked up on the
+        # class marshall_cdb / unmarshall_cdb are called on, so commands do not share state
+        self._cdb = SCSICommand.init_cdb(opcode)
         self.dataout = bytearray(dataout_alloclen)
         self.datain = bytearray(datain_alloclen)
         self.result = {}
@@ -217,20 +217,32 @@ class SCSICommand(metaclass=ExMETA):
         for b in self._cdb:
             print("0x%02X " % b)
 
-    @staticmethod
-    def marshall_cdb(cdb):
+    @classmethod
+    def marshall_cdb(cls, cdb):
         """
         Marshall an SCSICommand cdb
 
         :param cdb: a dict with key:value pairs representing a code descriptor block
         :return result: a byte array representing a code descriptor block
         """
-        result = bytearray(len(SCSICommand._cdb))
-        encode_dict(cdb, SCSICommand._cdb_bits, result)
+        if "opcode" in cdb:
+            result = SCSICommand.init_cdb(OpCode("", cdb["opcode"], {}))
+        else:
+            # no opcode to derive the length from: the shortest cdb that holds the layout
+            _need = 0
+            for _val in cls._cdb_bits.values():
+                _num = 1
+                _bm = _val[0]
+                while _bm > 0xFF:
+                    _bm >>= 8
+                    _num += 1
+                _need = max(_need, _val[1] + _num)
+            result = bytearray(next(n for n in (6, 10, 12, 16) if _need < n))
+        encode_dict(cdb, cls._cdb_bits, result)
         return result
 
-    @staticmethod
-    def unmarshall_cdb(cdb):
+    @classmethod
+    def unmarshall_cdb(cls, cdb):
         """
         Unmarshall an SCSICommand cdb
 
@@ -238,7 +250,7 @@ class SCSICommand(metaclass=ExMETA):
         :return result: a dict
         """
         result = {}
-        decode_bits(cdb, SCSICommand._cdb_bits, result)
+        decode_bits(cdb, cls._cdb_bits, result)
         return result
 
     def build_cdb(self, **kwargs):
@@ -249,7 +261,7 @@ class SCSICommand(metaclass=ExMETA):
         :return: a byte array representing a code descriptor block
         """
         cdb = {key: kwargs[key] for key in kwargs.keys()}
-        return SCSICommand.marshall_cdb(cdb)
+        return self.marshall_cdb(cdb)
 
     def unmarshall(self, **kwargs):
         """
